@@ -1581,6 +1581,11 @@ namespace bloch::runtime {
         if (!obj || obj->destroyed)
             return;
         obj->destroyed = true;
+        // Destructors see the dying object through a non-owning handle. Every copy a destructor
+        // makes of 'this' shares this control block, so an escaped copy can be told afterwards.
+        std::shared_ptr<Object> selfRef(obj, [](Object*) {});
+        int dtorLine = 0, dtorColumn = 0;
+        std::string dtorClass;
         if (runUserDestructor && obj->cls) {
             bool savedReturn = m_hasReturn;
             for (RuntimeClass* cur = obj->cls; cur; cur = cur->base) {
@@ -1599,9 +1604,15 @@ namespace bloch::runtime {
                 beginFrame();
                 Value thisVal;
                 thisVal.type = Value::Type::Object;
-                thisVal.objectValue = std::shared_ptr<Object>(obj, [](Object*) {});
+                thisVal.objectValue = selfRef;
                 thisVal.className = cur->name;
                 m_env.back()["this"] = {thisVal, false, true};
+                if (dtorClass.empty()) {
+                    dtorClass = cur->name;
+                    dtorLine = cur->destructorDecl->line;
+                    dtorColumn = cur->destructorDecl->column;
+                }
+                thisVal = Value{};  // the scope entry is the only copy while the body runs
                 // The object may be dying because its owner is returning: that pending return
                 // (or a 'return;' in a derived destructor) must not cut this body short.
                 m_hasReturn = false;
@@ -1656,6 +1667,13 @@ namespace bloch::runtime {
             }
         }
         obj->fields.clear();
+        if (selfRef.use_count() > 1) {
+            // A destructor stored 'this' (in a static, a field of another object, ...): that
+            // reference would outlive the object and dangle.
+            throw BlochError(ErrorCategory::Runtime, dtorLine, dtorColumn,
+                             "'this' was stored by the destructor of class '" + dtorClass +
+                                 "' and would outlive the object");
+        }
     }
 
     void RuntimeEvaluator::runFieldInitialisers(RuntimeClass* cls,
